@@ -183,6 +183,15 @@ def make_gen(call, mapper_box):
         return ds.query_input_value(a, i, call["res"])
     if k == "autodiscover":
         m = DeviceInstanceTypeMapper()
+        if call.get("history"):
+            # "one mapper per bus, re-used": the mapper was filled before (another population, partly the same keys
+            # with other types), its mapping was looked at, and it was cleared for this scan (a re-scan after devices
+            # were swapped): what it shows afterwards is this scan's population, nothing else
+            for (a0, i0, t0) in call["history"]:
+                m.add_type(short_address=a0, instance_number=i0, instance_type=t0)
+            _ = m.mapping
+            len(_)
+            m.clear()
         mapper_box.append(m)
         form = call["form"]
         if form == "default":
@@ -477,6 +486,10 @@ def _correspond(ctx, corr, rng, T, ls):
             call["lo"], call["hi"] = lo, rng.randrange(lo, 64)
         elif form == "list":
             call["addrs"] = [hot_addr(rng) for _ in range(rng.randrange(0, 12))]
+        if n % 2:
+            call["history"] = [(rng.choice(addrs) if addrs and rng.random() < 0.6 else rng.randrange(64),
+                                rng.randrange(4), rng.choice([1, 2, 3, 4, 6, 32]))
+                               for _ in range(rng.randrange(1, 6))]
         sc = {"suite": suite, "bus": bus_line(devs), "call": call}
         end, res, badop, trace = run_scenario(ls, sc)
         judge(corr, suite, sc, end, res, badop, "autodiscover")
